@@ -391,7 +391,7 @@ def legal(meta, ops, upto=None, two_monitors=False):
             elif k in ('asobj', 'asmv'):
                 if op[1] not in m.objs or op[2] not in m.objs or m.objs[op[1]].kind != 'P' or m.objs[op[2]].kind != 'P':
                     return None
-            elif k == 'rmobj':
+            elif k in ('rmobj', 'rmobjx'):
                 if op[1] not in m.objs:
                     return None
                 for e in m.exps.values():
